@@ -15,9 +15,17 @@ import (
 	"os/exec"
 	"path/filepath"
 	"sort"
+	"strconv"
 	"strings"
 	"sync"
 )
+
+func abs(x int) int {
+	if x < 0 {
+		return -x
+	}
+	return x
+}
 
 // applyUnifiedDiff applies a git-style unified diff to the files under repo and
 // returns the patched contents keyed by absolute file name.
@@ -47,6 +55,12 @@ func applyUnifiedDiff(repo, patch string) (map[string][]byte, error) {
 			content = strings.Split(string(b), "\n")
 			i++
 		case strings.HasPrefix(l, "@@") && file != "":
+			want := -1
+			if f := strings.Fields(l); len(f) >= 3 && strings.HasPrefix(f[2], "+") {
+				if n, err := strconv.Atoi(strings.SplitN(f[2][1:], ",", 2)[0]); err == nil {
+					want = n - 1 // position in the file as patched so far
+				}
+			}
 			i++
 			var old, new []string
 			for i < len(lines) {
@@ -82,7 +96,14 @@ func applyUnifiedDiff(repo, patch string) (map[string][]byte, error) {
 				}
 				if ok {
 					if at >= 0 {
-						return nil, fmt.Errorf("hunk matches more than once in %s", file)
+						// several matches: the one closest to the line the hunk header names
+						if want < 0 {
+							return nil, fmt.Errorf("hunk matches more than once in %s", file)
+						}
+						if abs(s-want) < abs(at-want) {
+							at = s
+						}
+						continue
 					}
 					at = s
 				}
